@@ -101,7 +101,9 @@ func encodeXterm(key vaxis.Key, deckpam bool, decckm bool) string {
 			buf.WriteRune('\x1b')
 		}
 		if xtermMods&vaxis.ModCtrl != 0 {
-			if unicode.IsLower(key.Keycode) {
+			if key.Keycode >= 'a' && key.Keycode <= 'z' {
+				// only these letters have a control code; any other
+				// lower-case letter is sent as itself below
 				buf.WriteRune(key.Keycode - 0x60)
 				return buf.String()
 			}
